@@ -182,11 +182,16 @@ def apply(ex, fv, args, kwargs, st, node):
     raise Unsupported(f"call of {fv} (line {node.lineno})")
 
 
-OP_TAGS = {"OpLt": ast.Lt, "OpLe": ast.LtE, "OpGt": ast.Gt, "OpGe": ast.GtE, "OpEq": ast.Eq, "OpNe": ast.NotEq}
+OP_TAGS = {"OpLt": ast.Lt, "OpLe": ast.LtE, "OpGt": ast.Gt, "OpGe": ast.GtE, "OpEq": ast.Eq, "OpNe": ast.NotEq,
+           "OpAdd": ast.Add, "OpSub": ast.Sub, "OpMul": ast.Mult, "OpDiv": ast.Div}
+ARITH_TAGS = {"OpAdd": "add", "OpSub": "sub", "OpMul": "mul", "OpDiv": "truediv"}  # the operator module function a parameter of that contract type stands for
 
 
 def _op_call(ex, tag, args, st, node):
-    """call of a parameter that is one of operator.lt/le/gt/ge/eq/ne (contract type OpLt, ...)"""
+    """call of a parameter that is one of operator.lt/le/gt/ge/eq/ne/add/sub (contract type OpLt, ..., OpAdd, OpSub)"""
+    if tag in ARITH_TAGS:
+        yield from ex.binop(OP_TAGS[tag](), args[0], args[1], st, node)
+        return
     for st1, c in ex.compare1(OP_TAGS[tag](), args[0], args[1], st, node):
         yield st1, boolv(c)
 
@@ -250,6 +255,15 @@ def isinstance_term(ex, x, c, st):
             return heapops.subclass_term(heapops.class_of(st.heap, x.v), heapops.class_of(st.heap, c.recv.v))
         return z3.BoolVal(False)
     if isinstance(c, FuncVal) and c.kind == "excclass":
+        return z3.BoolVal(False)
+    if isinstance(c, Val) and isinstance(c.t, TOpaque) and c.t.tag in ("UnitClass", "QuantityClass"):
+        # registry.Unit / registry.Quantity: the classes generated for that registry (subclasses of PlainUnit / PlainQuantity)
+        base = "PlainUnit" if c.t.tag == "UnitClass" else "PlainQuantity"
+        if isinstance(t, TRef):
+            if c.t.tag == "UnitClass" and not any(heapops._safe_sub(d.short, base) and heapops._safe_sub(d.short, t.cls)
+                                                  for d in decl.CLASSES.values() if not d.exc):
+                return z3.BoolVal(False)  # no declared class is both a `t.cls` and a unit
+            return z3.And(heapops.is_instance_term(st.heap, x.v, base), z3.Bool(fresh_name("of_that_registry")))
         return z3.BoolVal(False)
     if isinstance(c, Val) and c.t == NUMTYPE:
         if isinstance(t, TInt):
@@ -1060,7 +1074,10 @@ def construct(ex, cls_short, dyn_class_term, args, kwargs, st, node):
     d = decl.CLASSES[cls_short]
     key = ex.find_method(cls_short, "__init__")
     if key is None:
-        raise Unsupported(f"constructor of {cls_short}: no __init__ contract")
+        # classes built by __new__: an assumed contract keyed Class.__new__, whose first parameter (`cls`) stands for the new object
+        key = ex.find_method(cls_short, "__new__")
+        if key is None or not decl.CONTRACTS[key].trusted:
+            raise Unsupported(f"constructor of {cls_short}: no __init__ contract")
     r = st.new_ref("obj")
     cid = dyn_class_term if dyn_class_term is not None else z3.IntVal(d.id)
     st.heap.set(heapops.CLASSKEY, z3.Store(st.heap.get(heapops.CLASSKEY, z3.IntSort()), r, cid))
